@@ -197,7 +197,7 @@ class Builder:
             return self._note(s, t)
         if k == "fwd":
             from .fwdtype import wrap
-            return self._note(wrap(self.build(t[1])), t)
+            return self._note(wrap(self.build(t[1]), t[2] if len(t) > 2 else None), t)
         raise ValueError(f"unknown term {t!r}")
 
 
